@@ -80,7 +80,7 @@ Section ConsPres.
 
   (* the sections that do not belong to a consumer *)
   Lemma Q_step_container s e :
-    match e with ERelSect _ | EStartCons _ | EConsStep _ | EConsCancel _ | EFire _ | ECbReturn _ _ => False | _ => True end ->
+    match e with ERelSect _ | EStartCons _ | EConsStep _ | EConsCancel _ | EFire _ | ECbReturn _ _ | EWatch _ => False | _ => True end ->
     Q (conss s) -> Q (conss (step repaired s e)).
   Proof.
     intros He H. destruct e; try contradiction; cbn [step].
@@ -210,6 +210,8 @@ Proof.
     destruct (ck x); try exact H. destruct (cpcv x); try exact H.
     destruct (ccanc x); [now apply acc_ret_conss|].
     match goal with |- InvC (conss (if ?b then _ else _)) => destruct b end; [now apply acc_ret_conss | now apply InvC_setc].
+  - destruct (watch_step_spec s c) as [->|[x [y [Hx [-> Hy]]]]]; [exact H|]. wsplit Hy. apply InvC_setc; [exact H|].
+    pose proof (H c x Hx) as Hc. unfold cons_ok in *. now rewrite Wwfirepc, Wwonce, Wwfired.
 Qed.
 
 Theorem run_InvC k es : InvC (conss (run repaired (init k) es)).
@@ -277,7 +279,7 @@ Proof.
   assert (Ecb : cb_wwr x n (nonce s) =
                 ({| ck := ck x; cref := cref x; ccanc := ccanc x; cpcv := cpcv x; cw_res := cw_res x; ww_res := true; ww_nonce := ww_nonce x;
                     ww_prom := ww_prom x; ww_once := true; ww_fired := ww_fired x; ww_firepc := ww_firepc x; ac_val := ac_val x; ac_err := ac_err x;
-                    ac_res := ac_res x; ac_nonce := ac_nonce x; ac_snap := ac_snap x; ac_cbcanc := ac_cbcanc x; ac_cbres := ac_cbres x |}, true)).
+                    ac_res := ac_res x; ac_nonce := ac_nonce x; ac_snap := ac_snap x; ac_cbcanc := ac_cbcanc x; ac_cbres := ac_cbres x; ac_wpark := ac_wpark x; ac_wstale := ac_wstale x |}, true)).
   { unfold cb_wwr. rewrite Hres, Honce. destruct Hn as [->|[v [e [-> Hne]]]]; [reflexivity|].
     destruct (Nat.eqb_spec (nonce s) (ww_nonce x)); [contradiction | reflexivity]. }
   rewrite Ecb. assert (Hrl : r < length (refs s)) by (eapply nth_error_nth_len; eauto).
@@ -344,7 +346,7 @@ Qed.
 
 (* and afterwards nothing the container does changes that count *)
 Theorem fired_stays k0 c s e :
-  match e with ERelSect _ | EStartCons _ | EConsStep _ | EConsCancel _ | EFire _ | ECbReturn _ _ => False | _ => True end ->
+  match e with ERelSect _ | EStartCons _ | EConsStep _ | EConsCancel _ | EFire _ | ECbReturn _ _ | EWatch _ => False | _ => True end ->
   fired_done c k0 (conss s) -> fired_done c k0 (conss (step repaired s e)).
 Proof. apply (Q_step_container (fired_done c k0) (invoke_fired_done c k0)). Qed.
 
